@@ -41,7 +41,12 @@ let () =
     | "meth" ->
       let tok = unhx f.(3) in
       let m = method_of tok in
-      "P=" ^ hex_of_bytes (method_name m) ^ "\tK=" ^ (match m with MKnown i -> string_of_int (int_of_nat i) | MOther _ -> "-")
+      let kof m = (match m with MKnown i -> string_of_int (int_of_nat i) | MOther _ -> "-") in
+      (* the printed token parsed back by Method::parse in front of a blank (request line) and at the end of a value (CSeq, RAck) *)
+      let back rest = (match method_parse (method_name m @ rest) with
+        | Some (m', _) -> hex_of_bytes (method_name m') ^ "/" ^ kof m'
+        | None -> "ERR") in
+      "P=" ^ hex_of_bytes (method_name m) ^ "\tK=" ^ kof m ^ "\tR=" ^ back (bytes_of_string " sip:bob@example.org SIP/2.0") ^ "," ^ back [] ^ "," ^ back []
     | "na" ->
       (* kind | display (hex or -) | uri ... : the quoted display name as the model prints it, and what its parser reads back *)
       let a = Array.of_list (split_on '|' f.(3)) in
